@@ -159,9 +159,10 @@ def pErr : P (Option Err)
   | "E" :: r => do
     let (code, r) ← pStr r
     let (detailsEmpty, r) ← pBool r
+    let (detOk, r) ← pBool r
     let (detRoom, r) ← pOptStr r
     let (origDroom, r) ← pTok r
-    some (some { code, detailsEmpty, detRoom, origDroom }, r)
+    some (some { code, detailsEmpty, detOk, detRoom, origDroom }, r)
   | _ => none
 
 def pDec : P Dec
@@ -204,7 +205,9 @@ def parseOp : List String → Option Op
   | "peerwf" :: _ :: r => (pDec r).map fun (d, _) => .peer d true
   | ["bin", _] => some .bin
   | ["big", n] => (toNat? n).map .big
+  | ["drop", "hold"] => some .hold
   | ["drop", _] => some .drop
+  | ["up"] => some .up
   | ["local", "leave"] => some .localLeave
   | ["local", "msg"] => some .localMsg
   | ["probe"] => some .probe
@@ -218,6 +221,7 @@ def render (op : Op) (st : Fed) (c : Ctx) : String :=
   match c.fault with
   | some (.crash site) => "crash:" ++ site
   | some (.deadlock l) => "deadlock:" ++ l
+  | some (.spin site) => "spin:" ++ site
   | none =>
     match op with
     | .probe => "alive"
@@ -228,17 +232,20 @@ def render (op : Op) (st : Fed) (c : Ctx) : String :=
         | .bin => true
         | .big _ => true
         | .drop => true
+        | .hold => true
         | _ => false
       if needsConn && !st.connOpen then "no-conn"
       else
         let blind := match op with
           | .peer _ wf => wf
           | .drop => true
+          | .hold => true
           | _ => false
         let pre := match op with
           | .start .. => ["connected"]
           | .peer _ true => ["wfault"]
           | .drop => ["dropped"]
+          | .hold => ["dropped"]
           | _ => []
         let ls := c.effs.filterMap fun e =>
           match e with
